@@ -25,6 +25,12 @@ use std::panic::{catch_unwind, AssertUnwindSafe};
 use std::time::{Duration, Instant, SystemTime, UNIX_EPOCH};
 use verif_harness::{opt_str, panic_msg, Rng};
 
+/// watchdog: an engine operation that never returns (an eviction loop that stops making progress, a lock taken
+/// twice) would hang the harness; the run mode reports it (`HANG …` on stderr, exit code 3) instead
+static PROGRESS: std::sync::atomic::AtomicU64 = std::sync::atomic::AtomicU64::new(0);
+static EPISODE_NO: std::sync::atomic::AtomicU64 = std::sync::atomic::AtomicU64::new(0);
+static CURRENT: Lazy<std::sync::Mutex<String>> = Lazy::new(|| std::sync::Mutex::new(String::new()));
+
 #[derive(Clone, Copy, PartialEq, Debug)]
 enum Flavour {
     Global,
@@ -394,9 +400,12 @@ fn run_episode(cfg: &Cfg, fr_seed: u64, ops: &[Op], out: &mut impl Write) {
     eng.reset();
     let cfg_s = cfg.render();
     writeln!(out, "E|{}|{}", cfg_s, fr_seed).unwrap();
+    let episode_no = EPISODE_NO.fetch_add(1, std::sync::atomic::Ordering::SeqCst) + 1;
     let mut ages: HashMap<String, u64> = HashMap::new();
     let mut frs = Rng::new(fr_seed);
-    for op in ops {
+    for (step_no, op) in ops.iter().enumerate() {
+        *CURRENT.lock().unwrap() = format!("episode={} step={} cfg=[{}] op=[{}]", episode_no, step_no + 1, cfg_s, render_op(op));
+        PROGRESS.fetch_add(1, std::sync::atomic::Ordering::SeqCst);
         if let Op::Tick(ms) = op {
             let (t0, now_s) = eng.restamp(&ages);
             let pre = eng.dump(t0, now_s).render();
@@ -628,6 +637,21 @@ fn main() {
         }
         Some("run") => {
             std::panic::set_hook(Box::new(|_| {}));
+            std::thread::spawn(|| {
+                let mut last = PROGRESS.load(std::sync::atomic::Ordering::SeqCst);
+                let mut since = Instant::now();
+                loop {
+                    std::thread::sleep(Duration::from_millis(250));
+                    let now = PROGRESS.load(std::sync::atomic::Ordering::SeqCst);
+                    if now != last {
+                        last = now;
+                        since = Instant::now();
+                    } else if last > 0 && since.elapsed() > Duration::from_secs(10) {
+                        eprintln!("HANG {}", CURRENT.lock().unwrap());
+                        std::process::exit(3);
+                    }
+                }
+            });
             let f = std::fs::File::open(&args[2]).expect("episode file");
             let mut cur: Option<(Cfg, u64)> = None;
             let mut ops: Vec<Op> = Vec::new();
